@@ -435,7 +435,7 @@ PROPS.update({
         theorems=[(CMP + 'C10', ['DX.debug_trace_is_std', 'DX.transparent_delegates', 'DX.two_transparent_rejected',
                                  'DX.debug_struct_trace'])],
         l1=[('basic', 4000, 150000), ('all', 3000, 100000)],
-        extra=extras(extra_cmp_l2('debugRun', None, 480, 9600), extra_programs(l2gen.gen_c10_program, 600, 12000, what='Debug output differs from the standard derive on the type with its ignored fields deleted / from the transparent field alone'), extra_twins(360, 6000)),
+        extra=extras(extra_cmp_l2('fwdRun', None, 600, 12000), extra_cmp_l2('debugRun', None, 480, 9600), extra_programs(l2gen.gen_c10_program, 600, 12000, what='Debug output differs from the standard derive on the type with its ignored fields deleted / from the transparent field alone'), extra_twins(360, 6000)),
         labels=r':Debug$',
     ),
     'C11': dict(
